@@ -70,6 +70,12 @@ class Violation(Exception):
         self.msg = msg
 
 
+def rt(x):
+    """A run-time copy of an option string (as it would come from a config file or CLI): equal
+    to the literal but not the same object, so identity comparisons in the code under test show."""
+    return "".join(list(x)) if isinstance(x, str) else x
+
+
 def require(cond, sig: str, msg: str = ""):
     if not cond:
         raise Violation(sig, msg() if callable(msg) else msg)
